@@ -297,5 +297,188 @@ pub fn run(ctx: &Ctx) -> Report {
         check_set(seed, i, &mut local, maxv);
         acc.with(|r| r.merge(local));
     });
-    acc.into_inner()
+    let mut rep = acc.into_inner();
+    name_styles(seed, ctx.pick(120u64, 2000), &mut rep);
+    cross_module_cycles(seed, ctx.pick(120u64, 2000), &mut rep);
+    rep
+}
+
+/// sources of the template workloads (also type-checked by C01): even = name styles, odd = cross-module cycles
+pub fn template_sources(seed: u64, i: u64) -> Vec<String> {
+    if i % 2 == 0 {
+        let (a, b, _, _, _) = name_style_case(seed, i / 2);
+        vec![a, b]
+    } else {
+        cycle_case(seed, i / 2).0
+    }
+}
+
+/// A reference cycle through 2..3 modules whose references are written module-qualified or plain (imported), in every
+/// position that can close a cycle (OPTIONAL component, CHOICE alternative, SEQUENCE OF element). Returns the sources and,
+/// per module, (type name, referenced module, referenced type, written qualified).
+fn cycle_case(seed: u64, i: u64) -> (Vec<String>, Vec<(String, String, String, String, bool)>) {
+    let mut rng = Rng::for_case(seed, 1213, i);
+    let n = 2 + rng.below(2);
+    let names = ["Tree", "Branch", "Leaf-Set"];
+    let mods = ["Mod-A", "Mod-B", "Mod-C"];
+    let mut srcs = vec![];
+    let mut facts = vec![];
+    for k in 0..n {
+        let next = (k + 1) % n;
+        let qualified = rng.chance(2, 3);
+        let r = if qualified { format!("{}.{}", mods[next], names[next]) } else { names[next].to_string() };
+        let body = match rng.below(4) {
+            0 => format!("SEQUENCE {{ next {r} OPTIONAL, weight INTEGER }}"),
+            1 => format!("CHOICE {{ node {r}, leaf NULL }}"),
+            2 => format!("SET {{ next {r} OPTIONAL, flag BOOLEAN }}"),
+            _ => format!("SEQUENCE {{ children SEQUENCE OF {r}, label UTF8String }}"),
+        };
+        let tagging = *rng.pick(&["AUTOMATIC TAGS", "IMPLICIT TAGS", "EXPLICIT TAGS"]);
+        // in a module without automatic tagging the two components need distinct tags: they have (context vs universal)
+        srcs.push(format!("{} DEFINITIONS {tagging} ::= BEGIN IMPORTS {} FROM {};\n{} ::= {body}\nEND\n", mods[k], names[next], mods[next], names[k]));
+        facts.push((mods[k].to_string(), names[k].to_string(), mods[next].to_string(), names[next].to_string(), qualified));
+    }
+    (srcs, facts)
+}
+
+fn cross_module_cycles(seed: u64, n: u64, rep: &mut Report) {
+    let title = |s: &str| -> String {
+        let mut out = String::new();
+        let mut up = true;
+        for c in s.chars() {
+            if c == '-' {
+                up = true;
+            } else if up {
+                out.push(c.to_ascii_uppercase());
+                up = false;
+            } else {
+                out.push(c);
+            }
+        }
+        out
+    };
+    for i in 0..n {
+        let (srcs, facts) = cycle_case(seed, i);
+        let run = comp::rasn(&srcs, &Cfg::default_cfg());
+        rep.evaluations += 1;
+        let comp::Outcome::Ok { generated, warnings } = &run.out else {
+            rep.count("cycle_cases[not Ok]", 1);
+            continue;
+        };
+        if !warnings.is_empty() {
+            rep.count("cycle_cases[warnings]", 1);
+            continue;
+        }
+        let Ok(mods) = crate::proj::project(generated) else { continue };
+        rep.count("cycle_cases_judged", 1);
+        rep.nontrivial.insert(hash_str(&srcs.join("|")));
+        let origin = format!("cross-module-cycle(seed={seed},idx={i})");
+        for (m, t, m2, t2, qualified) in &facts {
+            let Some(rm) = mods.iter().find(|x| x.name == rust_mod_name(m)) else { continue };
+            let Some(it) = rm.find(&title(t)) else {
+                rep.violations.push(Violation { sig: "c12|cycle|type-item-missing".into(), what: format!("{m}.{t} has no item [{origin}]"), replay: json!({"origin": origin, "sources": srcs}) });
+                continue;
+            };
+            // the (only) mention of the referenced type inside the item
+            let want_path = format!("super::{}::{}", rust_mod_name(m2), title(t2));
+            let text: String = it.text.chars().filter(|c| !c.is_whitespace()).collect();
+            let mentions_path = text.contains(&want_path);
+            let mentions_plain = text.replace(&want_path, "").contains(&title(t2));
+            rep.count("qualified_reference_sites_checked", 1);
+            if *qualified && !mentions_path {
+                rep.violations.push(Violation { sig: format!("c12|cycle|qualified-reference-not-qualified|boxed={}", text.contains("Box<")), what: format!("{m}.{t} refers to {m2}.{t2} module-qualified, the item spells it without `{want_path}`: {} [{origin}]", one_line(&it.text, 200)), replay: json!({"origin": origin, "sources": srcs}) });
+            }
+            if !*qualified && !mentions_plain && !mentions_path {
+                rep.violations.push(Violation { sig: "c12|cycle|reference-missing".into(), what: format!("{m}.{t} refers to {t2}, the item does not mention it: {} [{origin}]", one_line(&it.text, 200)), replay: json!({"origin": origin, "sources": srcs}) });
+            }
+        }
+    }
+}
+
+fn name_style_case(seed: u64, i: u64) -> (String, String, Vec<String>, Vec<String>, Option<String>) {
+    const MIXED: [&str; 5] = ["Ab", "Flag-1", "E2ap", "Key-Usage", "X509v3"];
+    const CAPS_DIGITS: [&str; 6] = ["E2", "X509", "SHA256", "UE-ID-2", "T1", "IPV4"];
+    const CAPS_ONLY: [&str; 4] = ["UUID", "IMSI", "PLMN-ID", "T"];
+    const VALUES: [&str; 2] = ["limit-2", "maxChain"];
+    let mut rng = Rng::for_case(seed, 1212, i);
+    let mut pool: Vec<&str> = MIXED.iter().chain(CAPS_DIGITS.iter()).copied().collect();
+    // class-like spellings in a third of the cases only (they switch the whole clause to a glob)
+    if rng.chance(1, 3) {
+        pool.extend(CAPS_ONLY.iter());
+    }
+    rng.shuffle(&mut pool);
+    let k = 1 + rng.below(4);
+    let types: Vec<String> = pool[..k].iter().map(|s| s.to_string()).collect();
+    let value = if rng.chance(1, 2) { Some(rng.pick(&VALUES).to_string()) } else { None };
+    let mut b = String::from("Nb DEFINITIONS AUTOMATIC TAGS ::= BEGIN\n");
+    for t in MIXED.iter().chain(CAPS_DIGITS.iter()).chain(CAPS_ONLY.iter()) {
+        b.push_str(&format!("{t} ::= INTEGER (0..{})\n", 10 + t.len()));
+    }
+    for v in VALUES {
+        b.push_str(&format!("{v} INTEGER ::= 7\n"));
+    }
+    b.push_str("END\n");
+    let mut syms: Vec<String> = types.clone();
+    syms.extend(value.iter().cloned());
+    let mut a = format!("Na DEFINITIONS AUTOMATIC TAGS ::= BEGIN IMPORTS {} FROM Nb;\nTq1 ::= SEQUENCE {{ ", syms.join(", "));
+    for (j, t) in types.iter().enumerate() {
+        a.push_str(&format!("fq{j} {t}, "));
+    }
+    a.push_str(&format!("fq9 INTEGER{} }}\nEND\n", value.as_ref().map_or(String::new(), |v| format!(" DEFAULT {v}"))));
+    (a, b, types, syms, value)
+}
+
+/// Imported names of every spelling style. The generator's own names are all of one style (`Tq<n>`, `vq<n>`), but the
+/// backend decides how to render an IMPORTS clause from the *spelling* of the symbols: a clause containing a name made
+/// only of capitals and hyphens is taken for an information object class reference and (documented) rendered as a glob
+/// import; every other clause must list exactly its symbols.
+fn name_styles(seed: u64, n: u64, rep: &mut Report) {
+    for i in 0..n {
+        let (a, b, types, syms, _value) = name_style_case(seed, i);
+        let run = comp::rasn(&[a.clone(), b.clone()], &Cfg::default_cfg());
+        rep.evaluations += 1;
+        let comp::Outcome::Ok { generated, warnings } = &run.out else {
+            rep.count("name_style_cases[not Ok]", 1);
+            continue;
+        };
+        if !warnings.is_empty() {
+            rep.count("name_style_cases[warnings]", 1);
+            continue;
+        }
+        let Ok(mods) = crate::proj::project(generated) else { continue };
+        let Some(na) = mods.iter().find(|m| m.name == "na") else { continue };
+        rep.count("name_style_cases_judged", 1);
+        rep.nontrivial.insert(hash_str(&a));
+        let uses: Vec<String> = na.uses().into_iter().filter(|u| u.starts_with("super::nb")).collect();
+        let mut got: BTreeSet<String> = BTreeSet::new();
+        for u in &uses {
+            let rest = u.trim_start_matches("super::nb::");
+            got.extend(rest.trim_start_matches('{').trim_end_matches('}').split(',').map(|s| s.trim().to_string()).filter(|s| !s.is_empty()));
+        }
+        let class_like = types.iter().any(|t| t.chars().all(|c| c.is_ascii_uppercase() || c == '-'));
+        let origin = format!("name-styles(seed={seed},idx={i})");
+        // compared through the normalisation relation of C16 (drop `_` and `-`, lower-case): the exact mangled spelling is
+        // C16's subject, here only *which* symbols are imported matters
+        let norm = |x: &str| x.chars().filter(|c| *c != '_' && *c != '-').collect::<String>().to_lowercase();
+        let expect: BTreeSet<String> = syms.iter().map(|s| norm(s)).collect();
+        let got: BTreeSet<String> = got.iter().map(|g| if g == "*" { g.clone() } else { norm(g) }).collect();
+        let style = |t: &str| if t.chars().all(|c| c.is_ascii_uppercase() || c == '-') { "capitals" } else if !t.chars().any(|c| c.is_ascii_lowercase()) { "capitals+digits" } else if t.starts_with(|c: char| c.is_lowercase()) { "value" } else { "mixed-case" };
+        if got.contains("*") {
+            if !class_like {
+                let st: BTreeSet<&str> = syms.iter().map(|s| style(s)).collect();
+                rep.violations.push(Violation { sig: format!("c12|use-lines|wildcard-for-plain-symbols|styles={}", st.into_iter().collect::<Vec<_>>().join("+")), what: format!("IMPORTS {syms:?} FROM Nb rendered as {uses:?}: none of the symbols is spelled like a class reference [{origin}]"), replay: json!({"origin": origin, "sources": [a, b]}) });
+            }
+            continue;
+        }
+        let missing: Vec<&String> = expect.difference(&got).collect();
+        let extra: Vec<&String> = got.difference(&expect).collect();
+        if !missing.is_empty() || !extra.is_empty() {
+            let st: BTreeSet<&str> = syms.iter().filter(|s| missing.iter().any(|m| **m == norm(s))).map(|s| style(s)).collect();
+            rep.violations.push(Violation {
+                sig: format!("c12|use-lines|{}|styles={}", if !missing.is_empty() { "imported-symbol-missing" } else { "symbol-not-in-imports" }, st.into_iter().collect::<Vec<_>>().join("+")),
+                what: format!("IMPORTS {syms:?} FROM Nb rendered as {uses:?}: missing {missing:?}, extra {extra:?} [{origin}]"),
+                replay: json!({"origin": origin, "sources": [a, b]}),
+            });
+        }
+    }
 }
